@@ -139,6 +139,8 @@ def run_job(unit, job, cpath, outdir, tier, extra_defines=()):
     a_gb = os.path.join(outdir, jname + '.a.gb')
     b_gb = os.path.join(outdir, jname + '.b.gb')
     timeout = job.get('timeout', 900 if tier == 'quick' else 3600)
+    if os.environ.get('VERIF_JOB_TIMEOUT'):
+        timeout = int(os.environ['VERIF_JOB_TIMEOUT'])
     defines = list(unit.get('defines', [])) + list(job.get('defines', [])) + list(extra_defines)
     # witness clauses (replay support): WITNESS(fn, cond) in spec.h is a requires clause of
     # fn only in the job that enforces fn; elsewhere it expands to nothing.
@@ -227,7 +229,9 @@ def run_job(unit, job, cpath, outdir, tier, extra_defines=()):
         if ob.get('status') == 'FAILURE':
             res.failed.append(rec)
         elif ob.get('status') != 'SUCCESS':
-            res.reason = 'obligation %s has status %s' % (rec['id'], ob.get('status'))
+            # UNKNOWN/ERROR: only decisive when nothing failed (after a failed invariant step the
+            # remaining obligations of that path are reported UNKNOWN)
+            res._nonsuccess = 'obligation %s has status %s' % (rec['id'], ob.get('status'))
     if getattr(res, '_canary_bad', False):
         return res
     if not canary_seen:
@@ -253,6 +257,8 @@ def run_job(unit, job, cpath, outdir, tier, extra_defines=()):
             res.reason = 'expected %d loop_invariant_step obligations, found %d (loop contract dropped?)' % (want_loops, n_step)
             res.wall_s = time.time() - t0
             return res
+    if not res.failed and getattr(res, '_nonsuccess', None):
+        res.reason = res._nonsuccess
     if res.reason:
         res.wall_s = time.time() - t0
         return res
@@ -348,6 +354,9 @@ def obligation_key(unit, job, rec):
 # property driver
 # --------------------------------------------------------------------------
 
+ONLY_JOBS = None
+
+
 def jobs_for_property(prop, tier, all_units):
     sel = []
     for uname in all_units:
@@ -356,6 +365,8 @@ def jobs_for_property(prop, tier, all_units):
             if prop not in job.get('props', []):
                 continue
             if job.get('tier', 'quick') == 'thorough' and tier != 'thorough':
+                continue
+            if ONLY_JOBS and job['name'] not in ONLY_JOBS:
                 continue
             sel.append((unit, job))
     return sel
